@@ -6,6 +6,7 @@ CONSTANTS
   Rot4 = FALSE
   HistN = 1
   HistLen = 3
+  Deep = FALSE
   NB = 32
 INVARIANT SeqEqSim
 INVARIANT CodeEqDef
